@@ -306,7 +306,7 @@ Proof.
       + apply G_bind; [apply Hrec; [rch | lia] | intros [r s] _; apply G_ok].
       + apply G_bind; [apply Hrec; [rch | lia] | intros [r s] _; apply G_ok].
       + apply G_bind; [apply Hrec; [rch | lia] | intros [r s] _; apply G_ok].
-      + destruct l; try apply G_notok.
+      + destruct l; try apply G_err_cur.
         apply G_bind; [|intros [a s] _; apply G_ok].
         eapply G_reach; [apply reach_next|]. apply IHa; [rewrite Hp; discriminate | lia].
     - intros [l2 st2] E.
